@@ -302,7 +302,7 @@ func genHeader(t *rapid.T, ws, recv bool) hdr {
 		okVersion = false // missing
 	case 1:
 		okVersion = false
-		attrs += ` version="` + rapid.SampledFrom([]string{"0.9", "1.1", "2.0", "1", "1.0.0", "x", "", "256.0"}).Draw(t, "badversion") + `"`
+		attrs += ` version="` + rapid.SampledFrom([]string{"0.9", "1.1", "2.0", "1", "1.0.0", "x", "", "256.0", "257.0", "1.256", "513.512", "65537.65536", "4294967297.0", "18446744073709551617.0", "+1.0", "1.+0", "-255.0", "1.-256", " 1.0", "1.0 ", "1,0", "1.0.", ".0", "1.", "0x1.0", "1e0.0"}).Draw(t, "badversion") + `"`
 	default:
 		attrs += ` version="1.0"`
 	}
@@ -501,7 +501,7 @@ func TestC12Restart(t *testing.T) {
 		case "noversion":
 			version2 = ""
 		case "badversion":
-			version2 = rapid.SampledFrom([]string{"0.9", "1.1", "2.0", "x"}).Draw(rt, "badversion")
+			version2 = rapid.SampledFrom([]string{"0.9", "1.1", "2.0", "x", "257.0", "1.256", "+1.0", "-255.0"}).Draw(rt, "badversion")
 		case "nons":
 			ns2 = ""
 		case "otherns":
